@@ -9,6 +9,7 @@ import (
 	"fmt"
 	"math/rand"
 	"os"
+	"sort"
 	"strings"
 
 	"github.com/DistCompiler/pgo/distsys/tla"
@@ -29,6 +30,8 @@ type line struct {
 	Msg     string          `json:"msg,omitempty"`
 	Obs     interface{}     `json:"obs,omitempty"`
 	Policy  string          `json:"policy,omitempty"`
+	D       map[string]string `json:"d,omitempty"` // walk policy: variables changed by the step, new values
+	U       map[string]string `json:"u,omitempty"` // walk policy: the same variables, values before the step
 	Seed    int64           `json:"seed,omitempty"`
 }
 
@@ -54,6 +57,14 @@ func build(name string, n int, args map[string]int) *mpexec.System {
 func runOne(run int, sysName string, n int, seed int64, maxSteps int, policy string, args map[string]int) {
 	r := rand.New(rand.NewSource(seed))
 	s := build(sysName, n, args)
+	crashW, policy := setOracle(s, r, policy)
+	emit(line{E: "case", Run: run, Sys: sysName, Policy: policy, Seed: seed})
+	runBody(s, r, maxSteps, crashW)
+}
+
+// setOracle installs the choice oracle of a policy ("random" | "biased"); returns the weight with which
+// crasher processes are scheduled and the policy's description.
+func setOracle(s *mpexec.System, r *rand.Rand, policy string) (float64, string) {
 	s.Oracle = &mpexec.RandOracle{R: r}
 	crashW := 1.0
 	if policy == "biased" {
@@ -75,7 +86,10 @@ func runOne(run int, sysName string, n int, seed int64, maxSteps int, policy str
 		}
 		policy = fmt.Sprintf("biased pT=%v pC=%v pF=%v crash=%v", pT, pC, pF, crashW)
 	}
-	emit(line{E: "case", Run: run, Sys: sysName, Policy: policy, Seed: seed})
+	return crashW, policy
+}
+
+func runBody(s *mpexec.System, r *rand.Rand, maxSteps int, crashW float64) {
 	if err := s.Start(); err != nil {
 		emit(line{E: "error", Msg: err.Error()})
 		s.Stop()
@@ -290,6 +304,7 @@ func runGuided(sysName string, n int, traceFile string, args map[string]int) {
 		}
 		emit(line{E: "step", Label: "Init", State: d})
 		curCanon := tlaval.MustCanon(d)
+		pos := 0 // index of the step line that holds the current state
 		for i := 1; i < len(b.States); i++ {
 			want := tlaval.MustCanon(b.States[i])
 			if want == curCanon {
@@ -297,6 +312,13 @@ func runGuided(sysName string, n int, traceFile string, args map[string]int) {
 			}
 			found := false
 			var tried []string
+			if fanout > 0 {
+				// every committed successor of the state reached so far (all processes, all choice
+				// resolutions): each must be a step of the specification (validated by TLC as a
+				// jump back to this state followed by the successor)
+				emitFanout(s, cur, pos, want)
+			}
+			pos++
 			for pi := range s.Procs {
 				if cur.P[pi].PC == "Done" {
 					continue
@@ -331,6 +353,167 @@ func runGuided(sysName string, n int, traceFile string, args map[string]int) {
 		}
 		emit(line{E: "end"})
 	}
+}
+
+var (
+	fanout     int // max. number of extra successors emitted per visited state (guided policy); 0 = off
+	fanoutSeen = map[string]bool{}
+)
+
+// emitFanout writes every committed successor of cur (other than the behaviour's own next state,
+// which is emitted as a step) as a "succ" line anchored at step line `at` of the current case.
+func emitFanout(s *mpexec.System, cur *mpexec.State, at int, skip string) {
+	n := 0
+	for pi := range s.Procs {
+		if cur.P[pi].PC == "Done" {
+			continue
+		}
+		for _, sc := range s.Successors(cur, pi) {
+			if sc.Err != nil {
+				emit(line{E: "succ-error", Run: at, Proc: s.Procs[pi].Self.String(), Label: sc.Label, Msg: sc.Err.Error(), Choices: sc.Choices})
+				continue
+			}
+			dd := s.Dump(sc.Next)
+			c := tlaval.MustCanon(dd)
+			if c == skip {
+				continue
+			}
+			if n >= fanout {
+				return
+			}
+			// the same (label, process, local effect) in many global contexts is still a distinct edge;
+			// only exact repetitions of a (pre, post) pair are dropped
+			key := tlaval.MustCanon(s.Dump(cur)) + " -> " + c
+			if fanoutSeen[key] {
+				continue
+			}
+			fanoutSeen[key] = true
+			n++
+			emit(line{E: "succ", Run: at, Proc: s.Procs[pi].Self.String(), Label: sc.Label, State: dd, Choices: sc.Choices})
+		}
+	}
+}
+
+// ---- seeded walks of the fresh-context executor with the successors of every visited state (I->S) ----
+
+// runWalk performs a seeded (random / biased) walk from the initial state with one fresh context per
+// step. At every visited state all committed successors (every process, every choice resolution) are
+// computed; a label-balanced sample of them (reservoir per label, so that rarely enabled labels are
+// kept in full) is written as "succ" lines: TLC validates each as a step of the specification.
+func runWalk(run int, sysName string, n int, seed int64, maxSteps int, policy string, args map[string]int, maxEdges int) {
+	r := rand.New(rand.NewSource(seed))
+	s := build(sysName, n, args)
+	crashW, pol := setOracle(s, r, policy)
+	walkOracle := s.Oracle
+	emit(line{E: "case", Run: run, Sys: sysName, Policy: "walk " + pol, Seed: seed})
+	cur, err := s.InitialState()
+	if err != nil {
+		emit(line{E: "error", Msg: err.Error()})
+		return
+	}
+	emit(line{E: "step", Label: "Init", State: s.Dump(cur)})
+	pos := 0
+	type cand struct{ l line }
+	res := map[string][]line{} // label -> reservoir
+	seen := map[string]int{}   // label -> number of candidates seen
+	perLabel := maxEdges / 12
+	if perLabel < 8 {
+		perLabel = 8
+	}
+	failed := map[int]bool{}
+	for steps := 0; steps < maxSteps; {
+		var live []int
+		for pi := range s.Procs {
+			if cur.P[pi].PC != "Done" && !failed[pi] {
+				live = append(live, pi)
+			}
+		}
+		if len(live) == 0 {
+			break
+		}
+		// successors of the current state, sampled per label
+		curVars := s.DumpVars(cur)
+		curCanon := tlaval.MustCanon(s.Dump(cur))
+		if !fanoutSeen[curCanon] {
+			fanoutSeen[curCanon] = true
+			for pi := range s.Procs {
+				if cur.P[pi].PC == "Done" {
+					continue
+				}
+				for _, sc := range s.Successors(cur, pi) {
+					if sc.Err != nil {
+						emit(line{E: "succ-error", Run: pos, Proc: s.Procs[pi].Self.String(), Label: sc.Label, Msg: sc.Err.Error(), Choices: sc.Choices})
+						continue
+					}
+					d, u := diffVars(curVars, s.DumpVars(sc.Next))
+					l := line{E: "succ", Run: pos, Proc: s.Procs[pi].Self.String(), Label: sc.Label, Choices: sc.Choices, D: d, U: u}
+					seen[sc.Label]++
+					if len(res[sc.Label]) < perLabel {
+						res[sc.Label] = append(res[sc.Label], l)
+					} else if j := r.Intn(seen[sc.Label]); j < perLabel {
+						res[sc.Label][j] = l
+					}
+				}
+			}
+		}
+		s.Oracle = walkOracle
+		pi := live[r.Intn(len(live))]
+		if s.Procs[pi].Group == "crasher" && r.Float64() >= crashW {
+			if len(live) == 1 {
+				break
+			}
+			continue
+		}
+		ok, nx, ch, err := s.StepFrom(cur, pi)
+		if err != nil {
+			emit(line{E: "error", Proc: s.Procs[pi].Self.String(), Label: cur.P[pi].PC, Msg: err.Error(), Choices: ch})
+			break
+		}
+		if !ok {
+			if len(ch) == 0 {
+				failed[pi] = true
+			}
+			continue
+		}
+		failed = map[int]bool{}
+		steps++
+		pos++
+		d, _ := diffVars(curVars, s.DumpVars(nx))
+		emit(line{E: "step", Proc: s.Procs[pi].Self.String(), Label: cur.P[pi].PC, State: s.Dump(nx), Choices: ch, D: d})
+		cur = nx
+	}
+	var labels []string
+	for lb := range res {
+		labels = append(labels, lb)
+	}
+	sort.Strings(labels)
+	total := 0
+	for _, lb := range labels {
+		for _, l := range res[lb] {
+			if total >= maxEdges {
+				break
+			}
+			total++
+			emit(l)
+		}
+	}
+	emit(line{E: "end"})
+}
+
+// diffVars returns the variables whose text differs between two DumpVars results: new values and old values.
+func diffVars(a, b [][2]string) (map[string]string, map[string]string) {
+	d, u := map[string]string{}, map[string]string{}
+	old := map[string]string{}
+	for _, v := range a {
+		old[v[0]] = v[1]
+	}
+	for _, v := range b {
+		if o, ok := old[v[0]]; !ok || o != v[1] {
+			d[v[0]] = v[1]
+			u[v[0]] = o
+		}
+	}
+	return d, u
 }
 
 // ---- stateful exploration of the complete state graph (fresh context per step) ----
@@ -402,6 +585,7 @@ func main() {
 	outF := flag.String("out", "steps.ndjson", "")
 	extra := flag.String("args", "", "k=v,k=v extra integer parameters")
 	traceF := flag.String("trace", "", "ndjson of TLC behaviours for -policy guided")
+	flag.IntVar(&fanout, "fanout", 0, "guided policy: also emit up to this many other successors of every visited state")
 	flag.Parse()
 	args := map[string]int{}
 	for _, kv := range strings.Split(*extra, ",") {
@@ -423,6 +607,12 @@ func main() {
 	defer func() { out.Flush(); fh.Close() }()
 	if *policy == "guided" {
 		runGuided(*sysName, *n, *traceF, args)
+		return
+	}
+	if strings.HasPrefix(*policy, "walk-") {
+		for i := 0; i < *runs; i++ {
+			runWalk(i+1, *sysName, *n, *seed*100000+int64(i)*7919+3, *maxSteps, strings.TrimPrefix(*policy, "walk-"), args, fanout)
+		}
 		return
 	}
 	if *policy == "bfs" {
